@@ -35,14 +35,14 @@ pub fn plan(tier: Tier) -> Plan {
         checks.push(add_check::<Mean>("C01", a, d, filter, false));
         checks.push(add_check::<Variance>("C01", a, d, filter, false));
     }
-    let (n, w) = if tier == Tier::Quick { (20_000u64, 3usize) } else { (100_000, 3) };
+    let (n, w) = if tier == Tier::Quick { (70_000u64, 3usize) } else { (1_000_000, 3) };
     for a in ["small", "dec", "off9", "off11", "mixed", "tiny"] {
         let k = if tier == Tier::Quick { 3 } else { 4 };
         checks.push(super::longrun::lasso::<Mean>("C01", a, k, w, n, filter, false));
         checks.push(super::longrun::lasso::<Variance>("C01", a, k, w, n, filter, false));
     }
     Plan {
-        rule: "long streams as a finite family: every word of length <= 3 over 3-/4-letter sub-alphabets repeated to n = 20 000 (1e5 thorough), judged at n = 1..16, around every power of two and at the end against the exact statistics of the weighted multiset; AND every sequence over each named alphabet up to the depth bound, one real add() per transition, every prefix judged against the exact statistics of its multiset; a state is non-trivial when its multiset is inside the envelope domain (n = 1, or sigma > 0 and kappa <= 1e12); states are distinct (estimator Debug string, multiset) pairs".into(),
+        rule: "long streams as a finite family: every word of length <= 3 over 3-/4-letter sub-alphabets repeated to n = 70 000 (1e6 thorough), judged at n = 1..16, around every power of two and at the end against the exact statistics of the weighted multiset; AND every sequence over each named alphabet up to the depth bound, one real add() per transition, every prefix judged against the exact statistics of its multiset; a state is non-trivial when its multiset is inside the envelope domain (n = 1, or sigma > 0 and kappa <= 1e12); states are distinct (estimator Debug string, multiset) pairs".into(),
         assumptions: common_assumptions(),
         checks,
     }
